@@ -312,6 +312,9 @@ func init() {
 		n := c.N(1600, 40000)
 		runHistories(c, n, "isolation", isolationCfg)
 		runCross(c, n/10, "isolation")
+		if !c.Race {
+			c10CIDQuery(c)
+		}
 	})
 	Register("C11", func(c *RunCtx) {
 		n := c.N(1600, 40000)
